@@ -1,9 +1,13 @@
 
+val implb : bool -> bool -> bool
+
 val negb : bool -> bool
 
 type nat =
 | O
 | S of nat
+
+val option_map : ('a1 -> 'a2) -> 'a1 option -> 'a2 option
 
 val fst : ('a1 * 'a2) -> 'a1
 
@@ -24,6 +28,8 @@ val add : nat -> nat -> nat
 
 val sub : nat -> nat -> nat
 
+val eqb : bool -> bool -> bool
+
 module Nat :
  sig
   val eqb : nat -> nat -> bool
@@ -37,11 +43,15 @@ val nth : nat -> 'a1 list -> 'a1 -> 'a1
 
 val nth_error : 'a1 list -> nat -> 'a1 option
 
+val concat : 'a1 list list -> 'a1 list
+
 val map : ('a1 -> 'a2) -> 'a1 list -> 'a2 list
 
 val fold_left : ('a1 -> 'a2 -> 'a1) -> 'a2 list -> 'a1 -> 'a1
 
 val fold_right : ('a2 -> 'a1 -> 'a1) -> 'a1 -> 'a2 list -> 'a1
+
+val existsb : ('a1 -> bool) -> 'a1 list -> bool
 
 val forallb : ('a1 -> bool) -> 'a1 list -> bool
 
@@ -50,6 +60,10 @@ val filter : ('a1 -> bool) -> 'a1 list -> 'a1 list
 val combine : 'a1 list -> 'a2 list -> ('a1 * 'a2) list
 
 val firstn : nat -> 'a1 list -> 'a1 list
+
+val skipn : nat -> 'a1 list -> 'a1 list
+
+val seq : nat -> nat -> nat list
 
 val repeat : 'a1 -> nat -> 'a1 list
 
@@ -79,6 +93,8 @@ module Pos :
 
   val compare : positive -> positive -> comparison
 
+  val eqb : positive -> positive -> bool
+
   val iter_op : ('a1 -> 'a1 -> 'a1) -> positive -> 'a1 -> 'a1
 
   val to_nat : positive -> nat
@@ -104,12 +120,22 @@ module Z :
 
   val compare : z -> z -> comparison
 
+  val leb : z -> z -> bool
+
   val ltb : z -> z -> bool
+
+  val eqb : z -> z -> bool
 
   val to_nat : z -> nat
 
   val of_nat : nat -> z
+
+  val to_pos : z -> positive
  end
+
+type q = { qnum : z; qden : positive }
+
+val qle_bool : q -> q -> bool
 
 type sx =
 | SZ of z
@@ -127,6 +153,10 @@ val opt_all : 'a1 option list -> 'a1 list option
 
 val dlist : (sx -> 'a1 option) -> sx -> 'a1 list option
 
+val dq : sx -> q option
+
+val dopt : (sx -> 'a1 option) -> sx -> 'a1 option option
+
 val ez : z -> sx
 
 val enat : nat -> sx
@@ -142,6 +172,14 @@ val upd : 'a1 list -> nat -> 'a1 -> 'a1 list
 val insert_uniq : nat -> nat list -> nat list
 
 val sort_uniq : nat list -> nat list
+
+val slice : 'a1 list -> nat -> nat -> 'a1 list
+
+val where_from : nat -> bool list -> nat list
+
+val where_true : bool list -> nat list
+
+val ntrue : bool list -> nat
 
 type err =
 | ValueError
@@ -235,3 +273,223 @@ val run_op : st -> sx -> st * sx
 val run_ops : st -> sx list -> sx list
 
 val run_C13 : sx -> sx
+
+type call =
+| CAsk
+| CAskDqd
+| CTell
+| CTellDqd
+
+type add_mode =
+| Batch
+| Single
+
+val call_eqb : call -> call -> bool
+
+val last_is : call option -> call -> bool
+
+type 'v column = 'v list option
+
+val slice_col : nat -> nat -> 'a1 column -> 'a1 column
+
+val row_at : nat -> 'a1 column list -> 'a1 option list
+
+type 'v aevent =
+| AddBatch of 'v column list
+| AddSingle of 'v option list
+
+type ('v, 'f) told = { t_data : 'v column list; t_jac : 'v list option;
+                       t_info : 'f list }
+
+type ('v, 'f) eevent =
+| Asked of bool * 'v list
+| Told of bool * ('v, 'f) told
+
+type ('v, 'f) sched = { last_called : call option; cur : 'v list;
+                        num_emitted : nat list; arch : 'v aevent list;
+                        rarch : 'v aevent list option; mode : add_mode;
+                        elog : ('v, 'f) eevent list list }
+
+val sched_init : nat -> add_mode -> bool -> ('a1, 'a2) sched
+
+val n_emitters : ('a1, 'a2) sched -> nat
+
+val push :
+  ('a1, 'a2) eevent list list -> nat -> ('a1, 'a2) eevent -> ('a1, 'a2)
+  eevent list list
+
+val push_all :
+  ('a1, 'a2) eevent list list -> (nat * ('a1, 'a2) eevent) list -> ('a1, 'a2)
+  eevent list list
+
+val set_all : nat list -> (nat * nat) list -> nat list
+
+val ask_route :
+  bool -> nat list -> (nat -> 'a1 list) -> nat list -> ('a1, 'a2) eevent list
+  list -> ('a1 list * nat list) * ('a1, 'a2) eevent list list
+
+val mk_told :
+  nat -> nat -> 'a1 column list -> 'a1 list option -> 'a2 list -> ('a1, 'a2)
+  told
+
+val deliveries :
+  nat list -> nat list -> nat -> 'a1 column list -> 'a1 list option -> 'a2
+  list -> (nat * ('a1, 'a2) told) list
+
+val lens_ok : nat -> 'a1 column list -> bool
+
+val app_event :
+  'a1 aevent list -> 'a1 aevent list option -> 'a1 aevent -> 'a1 aevent
+  list * 'a1 aevent list option
+
+val single_loop :
+  'a1 column list -> (nat -> 'a2) -> nat option -> nat list -> 'a1 aevent
+  list -> 'a1 aevent list option -> 'a2 list -> ('a1 aevent list * 'a1 aevent
+  list option) * 'a2 list result
+
+val add_to_archives :
+  add_mode -> nat -> 'a1 column list -> (nat -> 'a2) -> nat option -> 'a1
+  aevent list -> 'a1 aevent list option -> ('a1 aevent list * 'a1 aevent list
+  option) * 'a2 list result
+
+type ('v, 'f) tell_args = { ta_data : 'v column list; ta_jac : 'v list;
+                            ta_fb : (nat -> 'f); ta_fail : nat option }
+
+type 'v out =
+| ORows of 'v list
+| ONone
+
+val ask_call : bool -> call
+
+val tell_call : bool -> call
+
+val ask_gen :
+  bool -> ('a1, 'a2) sched -> (nat -> 'a1 list) -> ('a1, 'a2) sched * 'a1 out
+  result
+
+val tell_gen :
+  bool -> ('a1, 'a2) sched -> ('a1, 'a2) tell_args -> ('a1, 'a2) sched * 'a1
+  out result
+
+type ('v, 'f) sop =
+| OpAsk of (nat -> 'v list)
+| OpAskDqd of (nat -> 'v list)
+| OpTell of ('v, 'f) tell_args
+| OpTellDqd of ('v, 'f) tell_args
+
+val sched_step :
+  ('a1, 'a2) sched -> ('a1, 'a2) sop -> ('a1, 'a2) sched * 'a1 out result
+
+val dany : sx -> sx option
+
+val eany : sx -> sx
+
+val dcol : sx -> sx column option
+
+val ecol : sx column -> sx
+
+val dresp : sx -> (nat -> sx list) option
+
+val dtell : sx -> sx -> sx -> sx -> (sx, sx) tell_args option
+
+val dsop : sx -> (sx, sx) sop option
+
+val eout : sx out result -> sx
+
+val etold : (sx, sx) told -> sx
+
+val eeevent : (sx, sx) eevent -> sx
+
+val eaevent : sx aevent -> sx
+
+val ecall : call option -> sx
+
+val esizes : (sx, sx) sched -> sx
+
+val estate : (sx, sx) sched -> sx
+
+val run_sops : (sx, sx) sched -> sx list -> sx list * sx
+
+val run_C04 : sx -> sx
+
+type reselect_mode =
+| Terminated
+| AllActive
+
+type key =
+| KInf
+| KFin of q
+| KUndef
+
+val key_geb : key -> key -> bool
+
+val better : key -> key -> bool
+
+val map2 : ('a1 -> 'a2 -> 'a3) -> 'a1 list -> 'a2 list -> 'a3 list
+
+val ucb_keys : nat list -> (nat -> q option) -> key list
+
+val valid_selection : nat -> bool list -> key list -> bool list -> bool
+
+val insert_desc : key list -> nat -> nat list -> nat list
+
+val argsort_desc : key list -> nat list
+
+val activate_loop : nat list -> bool list -> nat -> nat -> bool list
+
+val select : nat -> bool list -> key list -> bool list
+
+val fill : nat -> bool list -> bool list -> bool list * bool list
+
+val deactivate : bool list -> bool list -> bool list
+
+type ('v, 'f) bandit = { core : ('v, 'f) sched; active : bool list;
+                         success : nat list; selection : nat list;
+                         restarts : z list; num_active : nat;
+                         reselect : reselect_mode }
+
+val pool : ('a1, 'a2) bandit -> nat
+
+val bandit_init :
+  nat -> nat -> reselect_mode -> add_mode -> bool -> ('a1, 'a2) bandit
+
+val ask_pre :
+  ('a1, 'a2) bandit -> (nat -> z) -> (bool list * bool list) * z list
+
+val bandit_ask :
+  ('a1, 'a2) bandit -> (nat -> z) -> (nat -> q option) -> bool list -> (nat
+  -> 'a1 list) -> ('a1, 'a2) bandit * 'a1 out result
+
+val count_nz : ('a1 -> bool) -> 'a1 list -> nat
+
+val credit :
+  ('a2 -> bool) -> (nat * ('a1, 'a2) told) list -> nat list -> nat list ->
+  nat list -> nat list * nat list
+
+val bandit_tell :
+  ('a2 -> bool) -> ('a1, 'a2) bandit -> ('a1, 'a2) tell_args -> ('a1, 'a2)
+  bandit * 'a1 out result
+
+type ('v, 'f) bop =
+| BAsk of (nat -> z) * (nat -> q option) * bool list * (nat -> 'v list)
+| BTell of ('v, 'f) tell_args
+| BAskDqd
+| BTellDqd
+
+val bandit_step :
+  ('a2 -> bool) -> ('a1, 'a2) bandit -> ('a1, 'a2) bop -> ('a1, 'a2)
+  bandit * 'a1 out result
+
+val status_nz_sx : sx -> bool
+
+type bstate = (sx, sx) bandit
+
+val dbop : sx -> (sx, sx) bop option
+
+val ebstate : bstate -> sx
+
+val ask_diag : bstate -> (sx, sx) bop -> bstate -> sx * bool
+
+val run_bops : bstate -> sx list -> sx list * sx
+
+val run_C16 : sx -> sx
